@@ -20,7 +20,6 @@ package iam
 
 import (
 	"context"
-	"errors"
 	"fmt"
 	"net/http"
 	"time"
@@ -171,23 +170,18 @@ func (r Wrapper) validateS2SPresentationNonce(presentation vc.VerifiablePresenta
 			Description:   "presentation has invalid/missing nonce",
 		}
 	}
-	nonceError := r.s2sNonceStore().Get(nonce, new(bool))
-	if nonceError != nil && errors.Is(nonceError, storage.ErrNotFound) {
-		// this is OK, nonce has not been used before
-		nonceError = nil
-	} else if nonceError == nil {
-		// no store error: value was retrieved from store, meaning the nonce has been used before
+	// Check and store the nonce in one atomic step: of concurrent requests presenting the same nonce only one may pass.
+	// Regardless the result of the nonce checking, the nonce of the VP must not be used again, so it is always stored.
+	stored, err := storage.PutIfAbsent(r.s2sNonceStore(), nonce, true)
+	var nonceError error
+	if err != nil {
+		nonceError = fmt.Errorf("unable to store nonce: %w", err)
+	} else if !stored {
+		// value was already in the store, meaning the nonce has been used before
 		nonceError = oauth.OAuth2Error{
 			Code:        oauth.InvalidRequest,
 			Description: "presentation nonce has already been used",
 		}
-	}
-	// Other error occurred. Keep error to report after storing nonce.
-
-	// Regardless the result of the nonce checking, the nonce of the VP must not be used again.
-	// So always store the nonce.
-	if err := r.s2sNonceStore().Put(nonce, true); err != nil {
-		nonceError = errors.Join(fmt.Errorf("unable to store nonce: %w", err), nonceError)
 	}
 	return nonceError
 }
